@@ -191,7 +191,7 @@ def class_configs(tier, seed):
     return out
 
 
-CONN_OPS = ["flipbody", "fliptag", "drop", "dup", "swap", "reflect", "trunc", "xepoch", "flipmid", "palert", "ccs13", "ssl2"]
+CONN_OPS = ["flipbody", "fliptag", "drop", "dup", "swap", "reflect", "trunc", "xepoch", "flipmid", "palert", "ccs13", "ssl2", "ssl2splice"]
 
 
 def setup_pair(cfg, tag):
@@ -426,6 +426,7 @@ def conn_level(cfg, op, tier):
     for x in sides:
         drain_inflight(p, tr, sides[x])
     ver = tuple(cfg["ver"])
+    custom = None
     if op in ("palert", "ccs13") and ver != (3, 4):
         return None, info
     if op == "palert":
@@ -447,6 +448,39 @@ def conn_level(cfg, op, tier):
         raw = pending_raw(S.rcv, S.pipe)
         wire = [raw[0], old[-1]] + raw[1:]
         tr.emit("A", op="old", d=d, i=oldidx, p=2)
+        S.pipe.buf += b"".join(wire)
+    elif op == "ssl2splice":
+        # The MAC input of a TLS record (seq | type | version | length | D) read as SSLv2-style MAC input
+        # (data | low 4 bytes of the sequence number): when D ends in the receiver's next sequence number, the bytes of
+        # the genuine record re-arranged as  0x80 len | MAC | seq type version length D[:-4]  carry a "valid" SSLv2 MAC
+        # wherever the body is not encrypted.  A key-less adversary can build it; it is no record the peer protected.
+        if ver == (3, 4):
+            return None, info
+        import struct
+        rs = int(S.rcv._recordLayer._readState.seqnum)
+        nsplit = 1 if (cfg["cbc"] and ver <= (3, 1)) else 0
+        n = 50
+        before = S.nsent(tr)
+        payload = c01.stream(d, S.W, n - 4) + struct.pack(">I", (rs + nsplit + 1) & 0xffffffff)
+        custom = (S.W, payload)
+        tr.emit("W", d=d, n=n)
+        o = p.write(S.sndname, payload)
+        assert o.ok, o.describe()
+        tr.emit("WE", d=d)
+        S.W += n
+        for q in p.pipes:
+            q.transfer()
+        raw = pending_raw(S.rcv, S.pipe)
+        oraw = []
+        last = raw[-1]
+        from .. import suites as _su
+        maclen = {"md5": 16, "sha": 20, "sha256": 32, "sha384": 48}.get(_su.parse(cfg["sid"])["mac"], 16)
+        body = last[5:]
+        D, tag = body[:max(0, len(body) - maclen)], body[max(0, len(body) - maclen):]
+        inner = struct.pack(">Q", rs + nsplit) + last[0:3] + struct.pack(">H", len(D)) + D[:-4]
+        rec2 = tag + inner
+        wire = list(raw) + [bytes([0x80 | (len(rec2) >> 8), len(rec2) & 255]) + rec2]
+        tr.emit("A", op="forge", d=d, i=0, p=len(raw) + 1)
         S.pipe.buf += b"".join(wire)
     else:
         write_records(p, tr, S, [40, 50, 60])
@@ -517,8 +551,10 @@ def conn_level(cfg, op, tier):
         if S.rcv.closed and not chunk:
             info["problems"].append("read returned EOF instead of failing")
             break
-        tr.emit("RD", d=d, max=-1, min=1, len=len(chunk), match=chunk == c01.stream(d, base + len(got), len(chunk)),
-                closed=bool(S.rcv.closed))
+        want = c01.stream(d, base + len(got), len(chunk))
+        if custom is not None:
+            want = custom[1][len(got):len(got) + len(chunk)]
+        tr.emit("RD", d=d, max=-1, min=1, len=len(chunk), match=chunk == want, closed=bool(S.rcv.closed))
         got += chunk
     if exc is None:
         info["problems"].append("attack did not make the receiver fail (read %d bytes)" % len(got))
@@ -578,6 +614,9 @@ def run(tier):
     jobs = [("record", c, None, tier) for c in cfgs]
     for c in cfgs:
         ops = CONN_OPS if tier == "thorough" else [CONN_OPS[(c["case"] + env.SEED + j * 3) % len(CONN_OPS)] for j in range(3)]
+        from .. import suites as _su
+        if _su.parse(c["sid"])["cipher"] == "null" and "ssl2splice" not in ops:
+            ops = list(ops) + ["ssl2splice"]      # integrity-only suites: the splice is always tried
         for op in ops:
             jobs.append(("conn", c, op, tier))
     with Pool(16) as pool:
